@@ -42,6 +42,10 @@ func c20MapParallel(t *rapid.T, rec *core.Recorder) {
 		n = 300 + gogen.Uniform(t, 1700, "len2")
 	}
 	workers := gogen.Uniform(t, 44, "workers") - 3
+	if gogen.Uniform(t, 6, "many-workers") == 0 {
+		// hosts with hundreds of cores pass NumCPU-1 here; the function takes any int
+		workers = []int{100, 255, 256, 257, 300, 512, 1024, 1500}[gogen.Uniform(t, 8, "how-many")]
+	}
 	kind := gogen.Uniform(t, 3, "kind")
 	in := make([]int, n)
 	for i := range in {
@@ -223,7 +227,7 @@ func c20WriteCurrent(files map[string]string, o c20Opts) {
 }
 
 func TestC20(t *testing.T) {
-	rec := core.NewRecorder("C20", env, "cases = (a) funcutil.MapParallel on slices of length 0..2000 with -3..40 workers and pure / yielding / "+
+	rec := core.NewRecorder("C20", env, "cases = (a) funcutil.MapParallel on slices of length 0..2000 with -3..40 (one case in six: 100..1500) workers and pure / yielding / "+
 		"sleeping element functions, compared with the sequential Map, goroutine count back to its base; (b) taint analyses of generated flow "+
 		"programs under drawn combinations of report-summaries/coverage/paths/no-callee-sites, on-demand, escape analysis, log level and "+
 		"GOMAXPROCS in a test binary built with -race: no race report, no goroutine outliving Analyze, report files complete at return; "+
